@@ -71,11 +71,17 @@ WINDOW_MS = WINDOW * 1000
 LIMIT = 1296
 NAMES = ["attribute", "name1", "n"]
 MDS = [None, None, {}, {"a": "b"}, {"a": "c"}, {"a": "b", "x": "y"}, {"a": 1}, {"a": True}, {"a": 1.0}]
+# registrations only: values that have no JSON form (misuse of add_known_hash; they must simply match nothing)
+MDS_NONJSON = [{"a": b"b"}, {"a": {1, 2}}, {1: "x", "a": "b"}]
 
 
 def jd(x) -> str:
-    """type-exact canonical form of a JSON value (True, 1 and 1.0 are three different values)"""
-    return json.dumps(x, sort_keys=True)
+    """type-exact canonical form of a JSON value (True, 1 and 1.0 are written true, 1 and 1.0: three different texts);
+    something that has no JSON form gets a text no JSON value has"""
+    try:
+        return json.dumps(x, sort_keys=True)
+    except (TypeError, ValueError):
+        return "<no JSON form: %r>" % (x,)
 N_NODES = 3
 N_EXTRA = 2
 
@@ -544,7 +550,7 @@ class World:
 
     # ---- events --------------------------------------------------------------------------------------------------
     def ev_reg(self, v, raw, name, subj, md):
-        self.trace.append({"op": "reg", "v": v, "raw": raw.hex()[:8], "name": name, "subj": subj, "md": md})
+        self.trace.append({"op": "reg", "v": v, "raw": raw.hex()[:8], "name": name, "subj": subj, "md": repr(md)})
         now = self.now()
         self.ov[v].add_known_hash(raw, name, self.pkbin[subj], md)
         padded = PAD + raw if len(raw) == 20 else raw
@@ -553,7 +559,8 @@ class World:
                                                         self.nid(name), subj, "-" if md is None else self.xid(md)))
         self.expect.append("ok")
         self.ctx.count("ev:reg")
-        self.ctx.count("reg:md=" + ("none" if md is None else "fixed"))
+        self.ctx.count("reg:md=" + ("none" if md is None else "fixed-without-json-form" if jd(md).startswith("<no JSON")
+                                    else "fixed"))
         self.ctx.count("reg:subject=" + ("node" if subj <= N_NODES else "third-party"))
         self.check_dump(v)
 
@@ -1055,6 +1062,22 @@ class Gen:
             for e in w.craft(a, v, pl, "stale and fresh credential"):
                 w.queue.remove(e)
                 w.ev_deliver(e)
+        elif kind == "unserialisable-registration":
+            # h1 registered with metadata that has no JSON form, h2 registered properly; one disclosure carries both
+            # credentials: the first must be refused as a plain mismatch, the second must still be attested
+            w.ev_reg(v, h1, name, a, rng.choice(MDS_NONJSON))
+            w.ev_reg(v, h2, name, a, None)
+            w.ev_selfadv(a, h1, name)
+            m1 = w.ov[a].metadata_chain[-1]
+            w.ev_selfadv(a, h2, name)
+            m2 = w.ov[a].metadata_chain[-1]
+            real = [t.get_plaintext_signed() for t in w.ov[a].token_chain]
+            w.trace.append({"op": "opener", "kind": kind})
+            pl = w.P.DisclosePayload(frame_md([m1.get_plaintext_signed(), m2.get_plaintext_signed()]), b"".join(real),
+                                     b"", b"")
+            for e in w.craft(a, v, pl, "credential with unserialisable registration next to a good one"):
+                w.queue.remove(e)
+                w.ev_deliver(e)
         elif kind == "restart":
             # first lifetime: attest a's credential, with or without a third party's attestation stored first;
             # then a new object over the same database, a renewed registration, and the same disclosure again
@@ -1171,7 +1194,8 @@ class Gen:
         if r < 0.16:
             v = self.node()
             subj = rng.choice([k for k in (w.nodes if rng.random() < 0.9 else w.sk) if k != v])
-            w.ev_reg(v, self.rhash(), rng.choice(NAMES), subj, rng.choice(MDS))
+            w.ev_reg(v, self.rhash(), rng.choice(NAMES), subj,
+                     rng.choice(MDS_NONJSON) if rng.random() < 0.06 else rng.choice(MDS))
         elif r < 0.27:
             s = self.node()
             v = self.node(s)
@@ -1181,7 +1205,7 @@ class Gen:
                 x = rng.choice(regs)
                 raw = x["h"][len(PAD):] if x["h"].startswith(PAD) else x["h"]
                 w.ev_advert(s, v, raw, x["name"] if rng.random() < 0.8 else rng.choice(NAMES),
-                            x["md"] if rng.random() < 0.7 else rng.choice(MDS))
+                            x["md"] if rng.random() < 0.7 and not jd(x["md"]).startswith("<no JSON") else rng.choice(MDS))
             else:
                 w.ev_advert(s, v, self.rhash(), rng.choice(NAMES), rng.choice(MDS))
         elif r < 0.30:
@@ -1235,7 +1259,8 @@ class Gen:
 
 
 OPENERS = ["cross-subject", "expiry", "third-party-first", "replay", "long-chain", "sha1", "fixed-metadata",
-           "wrong-name", "tainted", "restart", "stale-plus-fresh", "orphan-flood", "none"]
+           "wrong-name", "tainted", "restart", "stale-plus-fresh", "orphan-flood",
+           "unserialisable-registration", "none"]
 
 
 async def run_world(ctx: Ctx, loop, use_model: bool, opener: str, n_events: int, world_seed: int):
@@ -1368,7 +1393,7 @@ def run(ctx: Ctx):
     if ctx.replay_input is not None:
         return replay(ctx, ctx.replay_input)
     run_matrix(ctx, ctx.model_ok)
-    run_worlds(ctx, ctx.scale(234, 3003), ctx.model_ok)
+    run_worlds(ctx, ctx.scale(238, 3010), ctx.model_ok)
 
 
 def search(ctx: Ctx, reason: str):
